@@ -505,6 +505,76 @@ Proof.
   eapply perm_trans; [apply Permutation_sym, Permutation_rev | apply rot_perm].
 Qed.
 
+(** ** replayed `vocabulary()` orders are fair enumerations, and every order of the fitted words is reached *)
+Lemma nodup_b_spec l : nodup_b l = true <-> NoDup l.
+Proof.
+  induction l as [|a r IH]; simpl.
+  - split; auto. intros _; constructor.
+  - rewrite andb_true_iff, negb_true_iff, IH, mem_false. split.
+    + intros [H1 H2]; constructor; auto.
+    + intros H; inversion H; auto.
+Qed.
+
+Lemma lists_keys_spec vocab m : lists_keys vocab m = true <-> NoDup vocab /\ Permutation vocab (keys m).
+Proof.
+  unfold lists_keys. rewrite !andb_true_iff, nodup_b_spec, Nat.eqb_eq, forallb_forall. split.
+  - intros [[HN HL] HI]. split; auto. apply NoDup_Permutation_bis; auto.
+    + unfold keys. rewrite map_length. lia.
+    + intros w Hw. apply mem_In. apply HI; exact Hw.
+  - intros [HN P]. repeat split; auto.
+    + rewrite (Permutation_length P). unfold keys. apply map_length.
+    + intros w Hw. apply mem_In. exact (Permutation_in w P Hw).
+Qed.
+
+Lemma enum_like_cons_fresh k v r ws : ~ In k ws -> enum_like ws ((k, v) :: r) = enum_like ws r.
+Proof.
+  induction ws as [|w ws IH]; intros H; simpl; auto.
+  rewrite IH by (intros X; apply H; right; exact X).
+  destruct (String.eqb_spec k w) as [->|N]; [exfalso; apply H; left; reflexivity | reflexivity].
+Qed.
+
+Lemma enum_like_self m : NoDup (keys m) -> enum_like (keys m) m = m.
+Proof.
+  induction m as [|[k v] r IH]; intros HN; simpl; auto.
+  inversion HN as [|? ? Hk HN']; subst. rewrite String.eqb_refl. simpl. f_equal.
+  change (enum_like (keys r) ((k, v) :: r) = r). rewrite enum_like_cons_fresh; auto.
+Qed.
+
+Lemma enum_like_perm v v' m : Permutation v v' -> Permutation (enum_like v m) (enum_like v' m).
+Proof. intros P. unfold enum_like. apply Permutation_flat_map. exact P. Qed.
+
+Lemma keys_enum_like vocab m : (forall w, In w vocab -> In w (keys m)) -> keys (enum_like vocab m) = vocab.
+Proof.
+  induction vocab as [|w r IH]; intros H; simpl; auto.
+  destruct (vget w m) as [v|] eqn:E.
+  - simpl. f_equal. apply IH. intros x Hx; apply H; right; exact Hx.
+  - exfalso. apply vget_None in E. apply E, H. left; reflexivity.
+Qed.
+
+Lemma observed_orders_fair vocab : fair (observed_orders vocab).
+Proof.
+  repeat split; simpl; intros; try apply Permutation_refl.
+  destruct (lists_keys vocab m) eqn:E; [|apply Permutation_refl].
+  apply lists_keys_spec in E. destruct E as [HN P].
+  assert (HNm : NoDup (keys m)) by (eapply Permutation_NoDup; eauto).
+  rewrite <- (enum_like_self m HNm) at 2. apply enum_like_perm; exact P.
+Qed.
+
+Lemma observed_order_reproduced s train vocab :
+  Permutation vocab (snd (fit_ord id_orders s train)) ->
+  snd (fit_ord (observed_orders vocab) s train) = vocab.
+Proof.
+  intros P.
+  destruct (fit_ord_vocab_set id_orders id_orders s train id_orders_fair id_orders_fair) as [HN _].
+  assert (HNv : NoDup vocab) by (eapply Permutation_NoDup; [apply Permutation_sym; exact P | exact HN]).
+  rewrite fit_ord_enum in *. unfold reindex in *. rewrite reindex_from_vec in *.
+  unfold fitted_enum in *. simpl in *.
+  set (M := filter_vocab_ord id_orders s (read_docs_ord id_orders (s_nmin s) (s_nmax s) train) (List.length train)) in *.
+  change (filter_vocab_ord (observed_orders vocab) s (read_docs_ord (observed_orders vocab) (s_nmin s) (s_nmax s) train) (List.length train)) with M.
+  assert (E : lists_keys vocab M = true) by (apply lists_keys_spec; split; auto).
+  rewrite E. apply keys_enum_like. intros w Hw. exact (Permutation_in w P Hw).
+Qed.
+
 (** * 3. non-vacuity examples *)
 Definition ex_docs : list (list string) :=
   [["aa"; "bb"; "aa"]; ["bb"; "cc"]; ["cc"; "aa"; "dd"]; ["ee"; "bb"]].
@@ -532,3 +602,14 @@ Proof. vm_compute. intros H; discriminate H. Qed.
 
 Example ex_nodup_keys : NoDup (keys [("aa", (0, 2)); ("cc", (1, 2))]%nat).
 Proof. repeat constructor; simpl; intuition discriminate. Qed.
+
+(* the hypothesis of [observed_order_reproduced] is satisfiable beyond the identity: a reversed listing *)
+Example ex_observed_order :
+  let v := snd (fit_ord id_orders (ex_settings None) ex_docs) in
+  rev v <> v /\ Permutation (rev v) v /\
+  snd (fit_ord (observed_orders (rev v)) (ex_settings None) ex_docs) = rev v.
+Proof.
+  cbv zeta. split; [vm_compute; intros H; discriminate H | split].
+  - apply Permutation_sym, Permutation_rev.
+  - vm_compute. reflexivity.
+Qed.
